@@ -139,6 +139,12 @@ class LineFileBase(SeqProp):
                         elif f.__enter__() is not f:
                             raise RuntimeError("__enter__ did not return the file object")
                         out.append("ok")
+                        if len(content) < 3000 and not any(o.startswith("ok") for o in out[1:-1]):
+                            # copies of the opened file object are made, read and dropped: the object itself stays usable
+                            cp = core.clone_probe(f, lambda o: (len(o), o.closed, [unwrap(o[i]) for i in range(min(len(o), 3))]),
+                                                  collect=True)
+                            if cp is not None:
+                                out[-1] = "mixin-mismatch copies of the file object: " + cp + " ;; ok"
                     elif k == "close":
                         # close() / leaving the context normally / leaving it through an exception raised in the body
                         if len(out) % 3 == 0:
